@@ -16,7 +16,8 @@ class Sim:
     def __init__(self, root):
         _, A, B = root
         self.root = root
-        self.w = World2(A=A, B=B)
+        self.w = World2(A=A, B=B, hb=CFG.get("hb", 100000))
+        self.nticks = 0
         self.accepted = {"A": [], "B": []}  # ids whose send call returned
         self.maybe = {"A": [], "B": []}  # ids whose send call raised after the state checks (may or may not arrive)
         self.order = {"A": [], "B": []}  # all ids in send order
@@ -58,6 +59,8 @@ class Sim:
                 evs.append(("brk", k))
         if w.can_connect():
             evs.append(("rec",))
+        if w.up and self.nticks < CFG.get("max_ticks", 0):
+            evs.append(("tick",))  # one heartbeat interval passes: watchdogs run (Heartbeat / TestRequest / timeout)
         return evs
 
     def key(self):
@@ -70,7 +73,7 @@ class Sim:
                           stored_counters(s.j, session_of(s.c).target_comp_id, session_of(s.c).sender_comp_id)))
         fl = tuple(tuple(norm_frame(f) for f in w.flight[d]) for d in ("AB", "BA"))
         return (tuple(parts), fl, w.up, tuple(self.accepted["A"]), tuple(self.accepted["B"]), tuple(self.maybe["A"]),
-                tuple(self.maybe["B"]), self.nsend, self.nbreak, tuple(sorted(self.logon_seen.items())))
+                tuple(self.maybe["B"]), self.nsend, self.nbreak, tuple(sorted(self.logon_seen.items())), self.nticks)
 
     # ------------------------------------------------------------------
     def apply(self, ev):
@@ -110,6 +113,10 @@ class Sim:
         elif k == "rec":
             w.connect()
             self.nconn += 1
+            self.logon_seen = {"A": False, "B": False}
+        elif k == "tick":
+            self.nticks += 1
+            w.advance(CFG["hb"])
         if w.livelock:
             self.dead = True
             return self._v("livelock", f"{k}:{ev[1] if len(ev) > 1 else ''}", "the endpoints go quiescent after every event", ev)
@@ -129,7 +136,8 @@ class Sim:
                     return self._v("delivered_out_of_order", self._ctx(), "in sending order", ev, side=x, got=got, sent=sent)
                 pos = p
         # ---- quiescent after a completed Logon exchange -----------------------------------
-        if w.up and not w.flight["AB"] and not w.flight["BA"] and all(self.logon_seen.values()):
+        watchdog_closed = self.nticks > 0 and not (w.connected("A") and w.connected("B"))  # a silent peer may be dropped
+        if w.up and not w.flight["AB"] and not w.flight["BA"] and all(self.logon_seen.values()) and not watchdog_closed:
             sa, sb = w.a.c.connection_state.name, w.b.c.connection_state.name
             if sa != "ACTIVE" or sb != "ACTIVE":
                 return self._v("quiescent_not_active", self._ctx(), "at that point both connections are ACTIVE", ev, states=(sa, sb))
@@ -197,6 +205,14 @@ def run(ctx):
     ctx.bounds = dict(CFG, depth=depth, max_states=cap)
     st = bfs.explore(ctx, Sim, [(("root", CFG["A"], CFG["B"]),)], depth, max_states=cap, label="C07")
     ctx.bounds.update(st)
+    # the same alphabet with live watchdogs: a "tick" event lets one heartbeat interval pass (Heartbeats, TestRequests
+    # and watchdog disconnects interleave with sends, deliveries and link loss)
+    keep = dict(CFG)
+    CFG.update(max_sends=2, max_breaks=1, kinds=("eof",), max_ticks=2 if ctx.quick else 3, hb=30)
+    st2 = bfs.explore(ctx, Sim, [(("root", CFG["A"], CFG["B"]),)], 11 if ctx.quick else 14, max_states=(60000 if ctx.quick else 600000), label="C07/hb")
+    ctx.bounds["with_heartbeat_ticks"] = dict(st2, max_ticks=CFG["max_ticks"], hb=30)
+    CFG.clear()
+    CFG.update(keep)
     if not st["closed"] and not ctx.caps_hit:
         ctx.notes.append(f"depth bound {depth} reached with {st['frontier_left']} frontier states unexpanded; all histories up to that depth were executed")
     ctx.outcomes.update(v["signature"].split("|")[0] for v in ctx.violations.values())
@@ -210,6 +226,8 @@ def run(ctx):
 def replay(ctx, rep):
     hist = [tuple(e) for e in rep["hist"]]
     CFG.update(max_sends=99, max_breaks=99)
+    if any(e[0] == "tick" for e in hist[1:]):
+        CFG.update(max_ticks=99, hb=30)
     s = Sim(hist[0])
     out = []
     try:
